@@ -15,7 +15,7 @@ def solve_spec(spec, holes=None, rej=False, **kw):
     if rej:   # a run of refused edits before the analysis: the table must still be that of the tree
         from ..sysmodel import rejected_edits
         if rejected_edits(s, spec):
-            return s, None, ("RuntimeError", "a refused edit was accepted (C14/C15 territory): case skipped")
+            return s, None, ("ValueError", "HARNESS: a call of the refused-edits menu was accepted")
     try:
         df, _ = quiet_call(s.solve, **kw)
     except RuntimeError as e:
@@ -78,6 +78,8 @@ def check_case(case, want=("C01",)):
         spec = spec_from_forest(case["f"], case["pal"], 1, case["srs"])
         names = [c["n"] for c in spec["comps"]]
         spec = with_phases(spec, PH2, dict(zip(names, case["assign"])))
+        if case.get("bounce"):   # the system phases re-defined with other names (or cleared) and then as before
+            spec["bounce"] = case["bounce"]
         s_, obs_ = phys.solve_and_check(res, spec, want, ta=25.0)
         if obs_ is not None and any(isinstance(a, dict) for a in case["assign"]):
             # the same system loaded from a file in which the per-phase load values carry a negative sign
@@ -231,6 +233,9 @@ def gen_cases(tier, want_mirror=True):
                 for assign in _it.product(*[pc_options(c, PH2, full=(n == 1)) for c in base["comps"]]):
                     if any(a is not None for a in assign):
                         yield dict(fam="phased", f=f, pal=pal, pol=1, srs=SRS, n=n, assign=list(assign))
+                        if n == 1:
+                            yield dict(fam="phased", f=f, pal=pal, pol=1, srs=SRS, n=n, assign=list(assign), bounce="rename")
+                            yield dict(fam="phased", f=f, pal=pal, pol=1, srs=SRS, n=n, assign=list(assign), bounce="clear")
         from . import c05
         for c5 in c05.gen_edits(tier, pal):
             if c5.get("handover") or c5.get("rename") or (c5.get("delete") and not c5.get("remux") and not c5.get("reload")):
